@@ -75,6 +75,16 @@ CHECKS = {
              "4-5 exception class. Later steps are reached through ideal crypto (symbolic) / real crypto (replay).",
         note="Trusted: ideal crypto only as environment to reach later steps, scripted transports, z3. Oracle calibration in DESIGN.md section 7.",
         design="DESIGN.md section 5 C04"),
+    "C01": dict(
+        text="The real get_session_keys generator (incl. resume_m1/resume_m3) is executed against an ideal-crypto (Dolev-Yao) adversary: "
+             "the M2 reply is assembled from selectors over {honest, adversary's own, foreign, arbitrary, short, absent} public keys and "
+             "{honest, arbitrary, truncated, replayed-from-another-exchange, adversary-encrypted with every identifier / signature / "
+             "layout variant} encrypted data, arbitrary fields being symbolic bytes; z3 decides whether a reply is byte-identical to "
+             "the genuine one and the check proves accepted <=> genuine, that a conformant accessory accepts M3, and that both ends "
+             "derive identical Control/Event keys and session id; IP and BLE key installation checked for label, direction, counter 0.",
+        note="Trusted: the ideal-cryptography assumption (DESIGN.md 4.2) - real X25519/Ed25519/ChaCha20/HKDF reject every non-genuine "
+             "value; sampled paths are replayed with real crypto on the real library. CoAP key installation not covered.",
+        design="DESIGN.md section 5 C01"),
 }
 
 NOT_APPLICABLE = {
